@@ -50,3 +50,24 @@ package cosmos
 //@   before[C13.txsize.limit] #next requires res_IsOracleCreatePriceTx_0 ==> len(res_TxBytes_0) <= g("app/ante/utils.TxSizeLimit")
 //@ loop #1
 //@   invariant true
+
+// C10 (a price submission takes effect only when signed by the key of the validator it is attributed to): in a
+// create-price transaction the i-th public key is compared with the i-th signer - each key with ITS signer - and the
+// transaction is handed on only if every comparison succeeded.
+//@ func (SetPubKeyDecorator).AnteHandle#next
+//@   flag assumed
+//@   modifies state(ctx), trace
+
+//@ func (SetPubKeyDecorator).AnteHandle
+//@   flag pure=IsOracleCreatePriceTx,Wrapf,Wrap,Address,signatureDataToBz
+//@   flag noframe
+//@   before[C10.spkd.bound] bytes.Equal requires res_IsOracleCreatePriceTx_0 ==> arg0 == res_GetSigners_0[i] && arg1 == res_Address_0
+//@ loop #1
+//@   invariant true
+//@   step[C10.spkd.bound] res_Equal_0
+//@ loop #2
+//@   invariant true
+//@ loop #3
+//@   invariant true
+//@ loop #4
+//@   invariant true
